@@ -351,6 +351,8 @@ class Scn(object):
                     self.cache[name] = ('ok', BUILDERS[name](self))
             except (CallFailed, Blocked) as e:
                 self.cache[name] = ('blocked', str(e))
+            except ImportError:
+                raise                          # a missing harness module / tamoc module is an infrastructure failure (exit 2)
             except Exception as e:            # noqa: BLE001
                 tb = sys.exc_info()[2]
                 owner = BUILDER_OWNER.get(name, 'harness')
@@ -2068,6 +2070,8 @@ def _sbm_post(S):
         # a bubble that dissolves completely ends with rows of zero mass (calculate_path clips the overshoot to 0): own input kind
         gone = bool(np.any(np.sum(model.y[:, 3:-1], axis=1) <= 0.))
         dk = 'dissolved-particle' if gone else kind
+        # the derived-variable table of an insoluble particle has its own key as well (no mass-transfer coefficients exist)
+        gone = gone or kind == 'inert'
         S.attempt(M + 'get_derived_variables', dk, dict(spec, track_chems=tc), lambda: model.get_derived_variables(track_chems=tc), edge=gone)
         f_nc, f_txt, f_der = os.path.join(d, 'sbm.nc'), os.path.join(d, 'sbm_state'), os.path.join(d, 'sbm_derived.txt')
         S.attempt(M + 'save_txt', kind, spec, lambda: (model.save_txt(f_txt, 'profile.nc', 'C20 synthetic profile'), np.loadtxt(f_txt + '.txt'))[1])
@@ -2158,17 +2162,25 @@ def _bpm_particles(S, prf, z0, specs):
     return parts
 
 
+def _bpm_pos_mask(model):
+    """boolean mask over the columns of the bent-plume state space: the three position slots of every particle"""
+    import scen_bpm
+    lay = scen_bpm.layout(model.particles, len(model.chem_names), len(model.tracers))
+    pos = np.zeros(lay['len'], dtype=bool)
+    for pl in lay['particles']:
+        pos[pl['X'][0]:pl['X'][1]] = True
+    return pos
+
+
 def _bpm_positions_ok(model):
     """(t, q) of a bent-plume solution.  The coordinates of a particle that has left the plume are NaN by design
     (lmp.correct_particle_tracking docstring, lmp.py l.389-435: "replaces the particle position after integration has
     stopped ... with NaN so that the post-processor always knows whether the solution ... is valid") — those three
     slots per particle only"""
-    import scen_bpm
     q = np.array(model.q, dtype=float)
-    lay = scen_bpm.layout(model.particles, len(model.chem_names), len(model.tracers))
-    pos = np.zeros(q.shape[1], dtype=bool)
-    for pl in lay['particles']:
-        pos[pl['X'][0]:pl['X'][1]] = True
+    pos = _bpm_pos_mask(model)
+    if len(pos) != q.shape[1]:
+        return model.t, q
     return NanOK((model.t, q[:, ~pos]), q[:, pos], 'positions of particles outside the plume')
 
 
@@ -2327,7 +2339,7 @@ def _bpm_post(S):
             S.skip('tamoc.' + M + 'get_intrusion_initial_condition', 'no ambient current at the end of the near field (the intrusion is advected by the current)')
         # ---- files
         f_nc, f_txt, f_der = os.path.join(d, 'bpm.nc'), os.path.join(d, 'bpm_state'), os.path.join(d, 'bpm_derived.txt')
-        S.attempt(M + 'save_txt', kind, scn, lambda: (model.save_txt(f_txt, 'profile.nc', 'C20 synthetic profile'), _txt_ok(f_txt + '.txt'))[1])
+        S.attempt(M + 'save_txt', kind, scn, lambda: (model.save_txt(f_txt, 'profile.nc', 'C20 synthetic profile'), _txt_ok(f_txt + '.txt', model))[1])
         S.attempt(M + 'save_derived_variables', kind, dict(scn, track_chems=tc), lambda: _derived_ok(model.save_derived_variables(f_der, track_chems=tc)))
         # the particle list of a finished simulation written directly (bent-plume particles carry their simulation attributes)
         pth = _save_particles_direct(S, parts, 'bpm.Particle:after-simulation', scn)
@@ -2367,21 +2379,19 @@ def _bpm_post(S):
 
 
 def _derived_ok(res):
-    """derived-variable table of the bent plume model: the columns holding particle positions follow the documented NaN
-    convention of the state space (see _bpm_positions_ok); everything else must be finite"""
-    data, names = res[0], res[1]
-    if isinstance(names, str):
-        names = [ln.split(':', 1)[1].strip() for ln in names.splitlines() if ln.strip().startswith('Col')]
-    data = np.asarray(data, dtype=float)
-    pos = np.array([bool(re.search(r'coordinate of particle|position of particle|-coordinate of the particle', nm, re.I)) for nm in names])
-    if len(pos) != data.shape[1]:
-        return res
-    return NanOK(data[:, ~pos], data[:, pos], 'positions of particles outside the plume')
+    """derived-variable table of the bent plume model (data, names | header, ...): strict — the particle coordinates in this
+    table are Cartesian positions from Particle.track, which reports the exit position once a particle has left the plume,
+    so the NaN convention of the state space does not apply here"""
+    return res
 
 
-def _txt_ok(path):
-    a = np.loadtxt(path)
-    return NanOK((), a, 'state space written to text, positions of particles outside the plume are NaN') if np.any(np.isnan(a)) else a
+def _txt_ok(path, model):
+    """state space written by save_txt: column 0 is the time, then q — same documented NaN slots as the state space"""
+    a = np.atleast_2d(np.loadtxt(path))
+    pos = np.concatenate(([False], _bpm_pos_mask(model)))
+    if len(pos) != a.shape[1]:
+        return a
+    return NanOK(a[:, ~pos], a[:, pos], 'positions of particles outside the plume')
 
 
 @entry('bent_plume_model.ModelParams', 'bent_plume_model.Particle', 'bent_plume_model.LagElement', 'bent_plume_model.width_projection',
@@ -2711,7 +2721,7 @@ def _blowout_obj(S):
         write_profile_nc(S, b.profile, os.path.join(dd, 'profile.nc'))
         S.attempt(B + 'save_sim', 'track=%s' % b.track, d, lambda: b.save_sim(os.path.join(dd, 'blowout.nc'), 'profile.nc', 'C20 profile'))
         S.attempt(B + 'save_txt', 'track=%s' % b.track, d,
-                  lambda: (b.save_txt(os.path.join(dd, 'blowout_state'), 'profile.nc', 'C20 profile'), _txt_ok(os.path.join(dd, 'blowout_state.txt')))[1])
+                  lambda: (b.save_txt(os.path.join(dd, 'blowout_state'), 'profile.nc', 'C20 profile'), _txt_ok(os.path.join(dd, 'blowout_state.txt'), b.bpm))[1])
     # ---- documented current form with its own key: profile of (depth, u, v) without the optional vertical component
     cur = np.array([[0., 0.1, 0.02], [5000., 0.05, 0.]])
     S.attempt('blowout.Blowout', 'current-2D-depth-u-v', {'current': cur}, lambda: _blowout_numbers(blowout.Blowout(z0=500., current=cur.copy(), num_gas_elements=2, num_oil_elements=2)), edge=True)
@@ -2815,6 +2825,8 @@ def run(ctx, lean_ok):
             except Blocked as b:
                 for e2 in [e for e in eps if TABLE.get(e) is ent]:
                     blocked[e2] = str(b)
+            except ImportError:
+                raise
             except Exception as e:      # noqa: BLE001 — input preparation raised (tamoc set-up call or harness bug): never hide it
                 tb = sys.exc_info()[2]
                 S._violate('raises:' + ep, 'preparing the inputs of %s raised %s' % (ep, type(e).__name__),
